@@ -51,8 +51,20 @@ def lname(f):
     return ".".join(str(x) for x in f)
 
 
+FALSE_ATOMS = []      # per task: atoms known to be false on every path (index disequalities from the precondition)
+
+
+def norm(e):
+    """simplify a term using the index disequalities of the precondition (p1 != p2), so that
+    Select(Store(a, p2, .), p1) reduces syntactically and the polynomial back end sees plain atoms"""
+    if FALSE_ATOMS:
+        e = z3.simplify(e, expand_select_store=True)
+        e = z3.substitute(e, *[(a, z3.BoolVal(False)) for a in FALSE_ATOMS])
+    return z3.simplify(e)
+
+
 def sel(arrs, f, i):
-    return z3.simplify(z3.Select(arrs[(f,)], i))
+    return norm(z3.Select(arrs[(f,)], i))
 
 
 def mk_collision(v, s, order=None):
@@ -61,6 +73,7 @@ def mk_collision(v, s, order=None):
     c = v.struct("struct reb_collision", "c")
     p1, p2 = c.p1, c.p2
     v.assume(0 <= p1, p1 < s.N, 0 <= p2, p2 < s.N, p1 != p2)
+    FALSE_ATOMS[:] = [p1 == p2, p2 == p1]
     if order == "p1<p2":
         v.assume(p1 < p2)
     elif order == "p1>p2":
